@@ -17,13 +17,15 @@ type Case struct {
 	Real   Real
 	Line   string
 	Answer string
-	// projections the property constrains: per call (StatusCode(), ContentLength(), returned error)
-	// and the filter's final reading
+	// projections the property constrains: per call (StatusCode(), ContentLength(), returned error —
+	// which one: nil, the value of which Write beneath the Response, another) and the filter's final reading
 	RealProj, ModelProj string
 	// everything the model predicts (adds the underlying events and Error() != nil)
 	RealFull, ModelFull string
 	Spec                string // "1" | "0": Spec.c15Holds on the real history
 	Disc, DCalls        bool
+	MClean              bool // every entity of the sequence marshals (Spec.marshalClean)
+	OutOfQ              int  // calls in which a Write failed AND the value does not marshal: outside the quantifier of "returns THAT error"
 	Tags                []string
 }
 
@@ -38,7 +40,7 @@ func LineOf(id int, s Seq, real Real) string {
 	}
 	obs := sx.K("obs")
 	for _, c := range real.Calls {
-		n := sx.K("c", sx.N(c.Status), sx.N(c.Length), sx.B(c.RetErr), sx.B(c.ErrSet))
+		n := sx.K("c", sx.N(c.Status), sx.N(c.Length), sx.A(c.Ret), sx.B(c.ErrSet))
 		for _, e := range c.Events {
 			n.List = append(n.List, e.Sx())
 		}
@@ -107,6 +109,10 @@ func (c *Case) fill(answer string) error {
 			c.Disc = s.Args()[0].Atom == "1"
 		case "dcalls":
 			c.DCalls = s.Args()[0].Atom == "1"
+		case "mclean":
+			c.MClean = s.Args()[0].Atom == "1"
+		case "oq":
+			c.OutOfQ, _ = strconv.Atoi(s.Args()[0].Atom)
 		case "tag":
 			c.Tags = nil
 			for _, t := range s.Args() {
@@ -239,13 +245,13 @@ func Shrink(s Seq, bad func(Seq) bool) Seq {
 func whatOf(kind string, c *Case) string {
 	switch kind {
 	case failSpec:
-		return "the real history falsifies Spec.c15Holds (StatusCode()/ContentLength()/returned error do not match what the underlying writer received and accepted)"
+		return "the real history falsifies Spec.c15Holds (StatusCode()/ContentLength()/returned error do not match what the underlying writer received, accepted and returned)"
 	case failSanity:
 		return "cross-check between the Response, the recorder beneath it and the bottom writer failed: " + c.Real.Sanity
 	case failPanic:
 		return "the real code panicked: " + c.Real.Panic
 	}
-	return "model and implementation disagree on (StatusCode(), ContentLength(), returned error)"
+	return "model and implementation disagree on (StatusCode(), ContentLength(), which error was returned)"
 }
 
 // Stats is what a run measured besides the verdicts.
@@ -254,12 +260,74 @@ type Stats struct {
 	AuxSample  string
 }
 
+// BoundaryCases are the cases at the edge of the error clause's quantifier, built deterministically:
+// a value that does not marshal (BadTail) whose padding makes xml.Encoder flush its 4096-byte buffer
+// while it writes the start tag of the unsupported field, with the bottom writer failing at exactly
+// that Write — Encode then returns its own error, not the writer's (Facts.EXMask) — and, one byte of
+// padding further, the ordinary case in which the same failing Write surfaces as itself.  The
+// padding sizes are searched, not assumed (they depend on what the escaping does to the text).
+func BoundaryCases() (seqs []Seq, masked int) {
+	for size := 0; size <= 5000; size++ {
+		v := Value{Kind: "badtail", Size: size}
+		f := FactsOf(v)
+		for i, m := range f.EXMask {
+			if !m {
+				continue
+			}
+			masked++
+			for _, sz := range []int{size, size + 1} {
+				for _, mode := range []string{"direct", "route"} {
+					for _, kind := range []string{"wax", "whx", "wen"} {
+						ops := []Op{{Kind: "pp", B: false}}
+						if kind == "wen" {
+							ops = append(ops, Op{Kind: "acc", Acc: "x", Mime: AcceptMimes["x"][0]})
+						}
+						ops = append(ops, Op{Kind: kind, Status: 200, Val: Value{Kind: "badtail", Size: sz}}, Op{Kind: "w", N: 5})
+						seqs = append(seqs, Seq{Mode: mode, Stream: "boundary", Ops: ops, Fail: FailSpec{From: i, Partial: 17, Transient: true}})
+					}
+				}
+			}
+		}
+	}
+	return seqs, masked
+}
+
 // Check runs n sequences, compares, shrinks, reports.
 func Check(run *report.Run, n int) error {
 	base := rng.New(run.Seed*1000003 + 15)
 	reported := map[string]int{}
 	shown := map[string]bool{}
 	var st Stats
+	// the boundary of the quantifier first: these cases must agree with the model like any other, and
+	// they must really be what they are built to be (a failing Write, another error returned)
+	bseqs, masked := BoundaryCases()
+	bcases, err := Batch(bseqs)
+	if err != nil {
+		return err
+	}
+	hit := 0
+	for _, c := range bcases {
+		account(run, c)
+		for _, oc := range c.Real.Calls {
+			for _, e := range oc.Events {
+				if !e.Header && e.Failed && oc.Ret == "x" {
+					hit++
+				}
+			}
+		}
+		if kind := c.failure(); kind != "" {
+			run.Count("failing:" + kind)
+			if reported[kind] < 2 {
+				reported[kind]++
+				reportFailure(run, c, kind, shown)
+			}
+		}
+	}
+	run.Extra["boundary_cases"] = map[string]int{"cases": len(bcases), "masked_write_positions_found": masked, "calls_returning_the_marshallers_error_after_a_failed_write": hit}
+	if masked == 0 || hit == 0 {
+		// the stream no longer visits the boundary (encoding/xml or the value recipe changed): say so
+		run.Count("boundary:not-reproduced")
+	}
 	const batch = 5000
 	for lo := 0; lo < n; lo += batch {
 		hi := lo + batch
@@ -337,6 +405,32 @@ func account(run *report.Run, c *Case) {
 		run.Count("first-failing-call:none")
 	} else {
 		run.Count("first-failing-call:" + strconv.Itoa(pos))
+	}
+	if c.MClean {
+		run.Count("marshal:every-entity-marshals")
+	} else {
+		run.Count("marshal:some-entity-has-an-error-of-its-own")
+	}
+	if c.OutOfQ > 0 {
+		// a failing Write in a call whose value does not marshal: two errors compete, which one the
+		// call returns is outside the quantifier of the error clause (the model still predicts it)
+		run.Count("out-of-quantifier:failing-write-in-call-whose-value-does-not-marshal")
+	}
+	for _, oc := range c.Real.Calls {
+		for _, e := range oc.Events {
+			if !e.Header && e.Failed {
+				switch {
+				case oc.Ret == "x":
+					run.Count("failing-call-returned:another-error")
+				case oc.Ret == "0":
+					run.Count("failing-call-returned:nil")
+				case oc.Ret == strconv.Itoa(e.Err):
+					run.Count("failing-call-returned:the-writers-error-value")
+				default:
+					run.Count("failing-call-returned:the-error-of-another-write")
+				}
+			}
+		}
 	}
 	if c.DCalls {
 		run.Count("discipline:obeyed")
